@@ -1,6 +1,6 @@
 (* C04, third clause: instantiation of TokIR/Consumed.v on the REGENERATED html and xml tokenizer tables. *)
 From Coq Require Import List NArith Bool.
-From HV Require Import TokIR.IR TokIR.Interp TokIR.Checks TokIR.NoPanic TokIR.Consumed.
+From HV Require Import TokIR.IR TokIR.Interp TokIR.Checks TokIR.NoPanic TokIR.Consumed TokIR.SingleEof.
 From HV Require Import TokIR.LineInv Gen.GenHtmlTok Gen.GenXmlTok Inst.InstLine Inst.InstTermX Inst.InstNoPanic.
 Import ListNotations.
 
@@ -47,6 +47,29 @@ Theorem xml_end_delivers_eof_last fuel m :
   let r := tok_end [] fq_next fq_peek (@app N) (fun q => q) fq_run1 xml_flavour true xml_table simd ent c1 sk fuel m in
   snd r = SSuspend -> newest_is_eof (fst r).
 Proof. exact (tok_end_last xml_flavour xml_table simd ent c1 sk xml_eof_ok_all fuel m). Qed.
+(* exactly one EOF token: none before end(), one more after an end() that returns normally *)
+Theorem html_feed_delivers_no_eof fuel m :
+  eofs (fst (feed [] fq_next fq_peek (@app N) (fun q => q) fq_run1 html_flavour true html_table simd ent c1 sk fuel m)) = eofs m.
+Proof. exact (feed_eofs html_flavour html_table simd ent c1 sk html_noeof_all fuel m). Qed.
+Theorem xml_feed_delivers_no_eof fuel m :
+  eofs (fst (feed [] fq_next fq_peek (@app N) (fun q => q) fq_run1 xml_flavour true xml_table simd ent c1 sk fuel m)) = eofs m.
+Proof. exact (feed_eofs xml_flavour xml_table simd ent c1 sk xml_noeof_all fuel m). Qed.
+Theorem html_end_delivers_one_eof fuel m :
+  let r := tok_end [] fq_next fq_peek (@app N) (fun q => q) fq_run1 html_flavour true html_table simd ent c1 sk fuel m in
+  snd r = SSuspend -> eofs (fst r) = Datatypes.S (eofs m).
+Proof. exact (tok_end_eofs html_flavour html_table simd ent c1 sk html_noeof_all html_eof_ok_all fuel m). Qed.
+Theorem xml_end_delivers_one_eof fuel m :
+  let r := tok_end [] fq_next fq_peek (@app N) (fun q => q) fq_run1 xml_flavour true xml_table simd ent c1 sk fuel m in
+  snd r = SSuspend -> eofs (fst r) = Datatypes.S (eofs m).
+Proof. exact (tok_end_eofs xml_flavour xml_table simd ent c1 sk xml_noeof_all xml_eof_ok_all fuel m). Qed.
+Theorem html_driver_exactly_one_eof fuel inj chunks s0 last :
+  let r := drive_flat html_flavour true html_table simd ent c1 sk fuel inj chunks (mkmach (init_cfg s0 last false) [] [] 0%N) [] in
+  hd (SPanic 0) (snd r) = SSuspend -> eofs (fst r) = 1%nat.
+Proof. exact (drive_eofs html_flavour html_table simd ent c1 sk html_noeof_all html_eof_ok_all fuel inj chunks _ []). Qed.
+Theorem xml_driver_exactly_one_eof fuel inj chunks s0 last :
+  let r := drive_flat xml_flavour true xml_table simd ent c1 sk fuel inj chunks (mkmach (init_cfg s0 last false) [] [] 0%N) [] in
+  hd (SPanic 0) (snd r) = SSuspend -> eofs (fst r) = 1%nat.
+Proof. exact (drive_eofs xml_flavour xml_table simd ent c1 sk xml_noeof_all xml_eof_ok_all fuel inj chunks _ []). Qed.
 End Both.
 
 (* non-vacuity (a test, by computation): "x&am" in the Data state - the reference is still pending when the input runs
